@@ -143,9 +143,19 @@ def r6_1(run):
         tbl = expect(ix, f, "cls.table_name()")
         fills = [s_ for s_ in rb.stores() if s_.base == ("n", "idx_lookups") and s_.index == (tbl,)
                  and tkey(s_.value) == tkey(expect(ix, f, "-np.ones(L.max() + 1, dtype=np.int32)", env={"L": L}))]
-        sets_ = [s_ for s_ in rb.stores() if s_.index == (L,) and fills and tkey(base_of(s_.base)) == tkey(fills[0].value)
-                 and tkey(s_.value) == tkey(expect(ix, f, "np.arange(len(L)) + current_start", env={"L": L}))]
-        ok = len(fills) == 1 and any(s_.seq > fills[0].seq and tkey(s_.cond) == tkey(fills[0].cond) for s_ in sets_)
+        # the scatter of position + start into that array: on the same path, or after the if/else whose non-empty arm
+        # allocated it (the base is then resolved under the path condition of the allocation)
+        from ..arrnf import _facts_of, _resolve_ite
+        sets_ = []
+        for s_ in rb.stores():
+            if s_.index == (L,) and fills and s_.seq > fills[0].seq \
+                    and tkey(s_.value) == tkey(expect(ix, f, "np.arange(len(L)) + current_start", env={"L": L})):
+                base = _resolve_ite(s_.base, _facts_of(fills[0].cond, rb), {}) if fills[0].cond else s_.base
+                c1 = {(tkey(c), p_) for c, p_ in s_.cond}
+                c0 = {(tkey(c), p_) for c, p_ in fills[0].cond}
+                if tkey(base_of(base)) == tkey(fills[0].value) and c1 <= c0:
+                    sets_.append(s_)
+        ok = len(fills) == 1 and bool(sets_)
         run.ob("builder|%s" % f.short, ok,
                "the index lookup is -1 everywhere and position+start at the table's labels", run.where(f, f.node))
     run.floor(25)
@@ -467,12 +477,27 @@ def r6_4(run):
     rg = ANF(ix, g_, param_alias=dict(zip(ps, ("internals", "table_name", "n", "start")))).run()
     st = rg.stores()
     alloc = [s_ for s_ in st if s_.base == ("n", "internals") and s_.index == (("n", "table_name"),)]
-    first = [s_ for s_ in st if s_.index == (FULL, C(0))]
-    last = [s_ for s_ in st if s_.index == (FULL, C(1))]
-    ok = len(alloc) == 1 and tkey(alloc[0].value) == tkey(expect(ix, g_, "np.empty((len(n), 2), dtype=np.int32)")) \
-        and len(first) == 1 and len(last) == 1 \
-        and tkey(last[0].value) == tkey(expect(ix, g_, "np.cumsum(n) - 1 + start")) \
-        and tkey(first[0].value) == tkey(expect(ix, g_, "(np.cumsum(n) - 1 + start) - (n - 1)"))
+    # the columns of the stored array: filled before it is stored (local array) or through internals[table_name] afterwards
+    colvals = {}
+    ok = len(alloc) == 1
+    if ok:
+        V = alloc[0].value
+        V0 = base_of(V)
+        t_ = V
+        chain = []
+        while t_[0] == "upd":
+            chain.append((t_[2], t_[3]))
+            t_ = t_[1]
+        for idx_, val_ in reversed(chain):
+            colvals.setdefault(idx_, []).append(val_)
+        for s_ in st:
+            if s_.seq > alloc[0].seq and tkey(base_of(s_.base)) == tkey(V0):
+                colvals.setdefault(s_.index, []).append(s_.value)
+        first, last = colvals.get((FULL, C(0)), []), colvals.get((FULL, C(1)), [])
+        ok = tkey(V0) == tkey(expect(ix, g_, "np.empty((len(n), 2), dtype=np.int32)")) \
+            and len(first) == 1 and len(last) == 1 and set(colvals) == {(FULL, C(0)), (FULL, C(1))} \
+            and tkey(last[0]) == tkey(expect(ix, g_, "np.cumsum(n) - 1 + start")) \
+            and tkey(first[0]) == tkey(expect(ix, g_, "(np.cumsum(n) - 1 + start) - (n - 1)"))
     run.ob("get_internal_lookup_structure|one-row-per-element", ok,
            "the internal lookup has one (first, last) row per element: last = cumsum(n) - 1 + start, first = last - (n - 1)",
            run.where(g_, g_.node))
